@@ -27,17 +27,18 @@ theorem text_cons (p : Piece) (b : List Piece) : text (p :: b) = p.text ++ text 
 theorem text_nil : text [] = [] := rfl
 
 /-- the comma-separated list the header writes after `from datetime import ` / `from pydantic import ` -/
-theorem text_commaAux : ∀ l : List Str,
+theorem text_commaAux (src : String) : ∀ l : List Str,
     text (forLast l (fun (i : Str) (last : Bool) =>
-      List.append [Piece.expr "i" i] (if (!last) then [Piece.lit ", "] else []))) = jjoin ", ".toList l
+      List.append [Piece.expr src i] (if (!last) then [Piece.lit ", "] else []))) = jjoin ", ".toList l
   | [] => rfl
   | [x] => by simp [forLast, jjoin, text, Piece.text]
   | x :: y :: r => by
-    have ih := text_commaAux (y :: r)
+    have ih := text_commaAux src (y :: r)
     rw [forLast, text_append, ih]
     simp [jjoin, text, Piece.text]
 
-theorem text_commaList (s : PySet) : text (commaList s) = jjoin ", ".toList (jsort s) := text_commaAux _
+theorem text_commaList (src : String) (s : PySet) : text (commaList src s) = jjoin ", ".toList (jsort s) :=
+  text_commaAux src _
 
 theorem text_importsEndLines (s : PySet) : text (importsEndLines s) = s.flatMap (fun i => i ++ ['\n']) := by
   induction s with
@@ -48,7 +49,7 @@ theorem text_importsEndLines (s : PySet) : text (importsEndLines s) = s.flatMap 
     simp [text, Piece.text]
 
 theorem count_importsEndLines (s : PySet) (i : Str) :
-    (importsEndLines s).count (Piece.expr "i" i) = s.count i := by
+    (importsEndLines s).count (Piece.expr "output_file.imports_end[]" i) = s.count i := by
   induction s with
   | nil => rfl
   | cons x r ih =>
@@ -56,7 +57,7 @@ theorem count_importsEndLines (s : PySet) (i : Str) :
     rw [List.count_append, ih, List.count_cons]
     by_cases h : x = i
     · subst h; simp; omega
-    · have : (Piece.expr "i" x == Piece.expr "i" i) = false := by simp [h]
+    · have : (Piece.expr "output_file.imports_end[]" x == Piece.expr "output_file.imports_end[]" i) = false := by simp [h]
       simp [h, this]
 
 theorem text_moduleImportLines (s : PySet) :
